@@ -458,6 +458,20 @@ int main(int argc, char **argv) {
     const char *only = argc > 4 ? argv[4] : "";
     NW = argc > 2 ? atoi(argv[2]) : 1; WK = argc > 3 ? atoi(argv[3]) : 0;
     THOROUGH = strcmp(tier, "thorough") == 0;
+    /* the very first conversions of the process are made under another rounding mode (the library is documented to honour the
+     * mode in effect): nothing of that may linger once the default mode is back */
+    { cif_value_tp *v = NULL; double d = 0; static const UChar t[] = { '0', '.', '3', '(', '1', ')', 0 };
+      fesetround(FE_UPWARD);
+      if (cif_value_create(CIF_UNK_KIND, &v) == CIF_OK) {
+          UChar *u = (UChar *) malloc(sizeof t); memcpy(u, t, sizeof t);
+          if (cif_value_parse_numb(v, u) != CIF_OK) free(u);
+          (void) cif_value_get_number(v, &d); (void) cif_value_get_su(v, &d);
+          (void) cif_value_init_numb(v, 0.125, 0.0, 2, 5); (void) cif_value_autoinit_numb(v, 12.3412, 0.0121, 19);
+          cif_value_free(v);
+      }
+      fesetround(FE_DOWNWARD);
+      if (cif_value_create(CIF_UNK_KIND, &v) == CIF_OK) { (void) cif_value_init_numb(v, 0.375, 0.0, 2, 5); (void) cif_value_get_number(v, &d); cif_value_free(v); }
+    }
     fesetround(FE_TONEAREST);
     if (!*only || strstr(only, "accept")) family_accept(getenv("NUM_ACCEPT_LEN") ? atoi(getenv("NUM_ACCEPT_LEN")) : (THOROUGH ? 8 : 6));
     if (!*only || strstr(only, "grid")) family_grid(getenv("NUM_GRID_DIGITS") ? atoi(getenv("NUM_GRID_DIGITS")) : (THOROUGH ? 5 : 3));
